@@ -108,7 +108,9 @@ fn fam(name: &'static str) -> Family {
         restarts: true,
         evicts: true,
         bursts: false,
+        races: false,
         factors: ALL_FACTORS,
+        odd_tables: false,
         tiny_wal: false,
         max_ops: 12,
     }
@@ -125,6 +127,8 @@ pub fn all() -> Vec<Box<dyn Suite>> {
                 (fam("dense"), 26),
                 (Family { tiny_wal: true, bursts: true, max_ops: 10, ..fam("dense-bgflush") }, 22),
                 (Family { factors: &[0], max_ops: 8, ..fam("dense-recompact") }, 8),
+                (Family { odd_tables: true, factors: &[4, 999], max_ops: 9, ..fam("odd-table-names") }, 8),
+                (Family { races: true, evicts: false, max_ops: 8, ..fam("ingest-flush-race") }, 10),
             ],
             thorough_scale: 8,
             witnesses: vec![],
@@ -136,6 +140,7 @@ pub fn all() -> Vec<Box<dyn Suite>> {
             fams: vec![
                 (Family { restarts: false, evicts: false, ..fam("cycles") }, 26),
                 (Family { restarts: false, evicts: false, tiny_wal: true, bursts: true, max_ops: 10, ..fam("cycles-bgflush") }, 24),
+                (Family { odd_tables: true, evicts: false, factors: &[4, 999], max_ops: 9, ..fam("odd-table-names") }, 6),
             ],
             thorough_scale: 8,
             witnesses: vec![],
@@ -149,6 +154,7 @@ pub fn all() -> Vec<Box<dyn Suite>> {
                 (Family { cols: Cols::VaryWithin, odd_names: true, factors: &[999], tiny_wal: true, max_ops: 10, ..fam("vary-within-bgflush") }, 12),
                 (Family { cols: Cols::VaryAcross, odd_names: true, factors: &[1, 4], ..fam("vary-across") }, 16),
                 (Family { cols: Cols::VaryAcross, odd_names: true, factors: &[0], max_ops: 8, ..fam("vary-across-recompact") }, 4),
+                (Family { cols: Cols::VaryWithin, odd_tables: true, factors: &[4, 999], max_ops: 9, ..fam("odd-table-names") }, 4),
                 (Family { cols: Cols::VaryAcross, odd_names: true, compressible: true, factors: &[0, 1], restarts: false, max_ops: 6, ..fam("long-compressible-names") }, 2),
             ],
             thorough_scale: 8,
